@@ -124,7 +124,27 @@ impl SparqlTranslator {
             });
         }
 
-        // Apply OFFSET
+        // Apply projection (but NOT for aggregate queries - aggregate already produces correct columns)
+        // For aggregate queries, the AggregateOp outputs columns with proper aliases
+        if !has_aggregates {
+            let projections = self.translate_projection(&select.projection)?;
+            if !projections.is_empty() {
+                plan = LogicalOperator::Project(ProjectOp {
+                    projections,
+                    input: Box::new(plan),
+                });
+            }
+        }
+
+        // Apply DISTINCT/REDUCED to the projected solutions
+        if select.modifier == ast::SelectModifier::Distinct {
+            plan = LogicalOperator::Distinct(DistinctOp {
+                input: Box::new(plan),
+                columns: None,
+            });
+        }
+
+        // Apply OFFSET and LIMIT last: they slice the projected, de-duplicated sequence
         if let Some(offset) = select.solution_modifiers.offset {
             plan = LogicalOperator::Skip(SkipOp {
                 count: offset as usize,
@@ -138,26 +158,6 @@ impl SparqlTranslator {
                 count: limit as usize,
                 input: Box::new(plan),
             });
-        }
-
-        // Apply DISTINCT/REDUCED
-        if select.modifier == ast::SelectModifier::Distinct {
-            plan = LogicalOperator::Distinct(DistinctOp {
-                input: Box::new(plan),
-                columns: None,
-            });
-        }
-
-        // Apply projection (but NOT for aggregate queries - aggregate already produces correct columns)
-        // For aggregate queries, the AggregateOp outputs columns with proper aliases
-        if !has_aggregates {
-            let projections = self.translate_projection(&select.projection)?;
-            if !projections.is_empty() {
-                plan = LogicalOperator::Project(ProjectOp {
-                    projections,
-                    input: Box::new(plan),
-                });
-            }
         }
 
         Ok(LogicalPlan::new(plan))
